@@ -419,8 +419,20 @@ impl<CS: BbsCiphersuite> PoKSignature<BBSplus<CS>> {
 
         let api_id = CS::API_ID_BLIND;
 
+        // total number of signed scalars: L signer messages, the blind factor, M committed messages
         let U = proof.m_cap.len();
-        let M = disclosed_indexes.len() + disclosed_commitment_indexes.len() + U - 1 - L;
+        let M = (disclosed_indexes.len() + disclosed_commitment_indexes.len() + U)
+            .checked_sub(L)
+            .and_then(|v| v.checked_sub(1))
+            .ok_or_else(|| Error::PoKSVerificationError("Invalid L".to_owned()))?;
+
+        if disclosed_indexes.iter().any(|&i| i >= L)
+            || disclosed_commitment_indexes.iter().any(|&j| j >= M)
+        {
+            return Err(Error::PoKSVerificationError(
+                "Invalid disclosed indexes".to_owned(),
+            ));
+        }
 
         let (message_scalars, generators) = prepare_parameters::<CS>(
             Some(disclosed_messages),
